@@ -16,7 +16,8 @@ every peer, any number of failing certificates, every engine satisfying H-openss
 `secured_iff`, `secured_iff_good`, `secured_sound`, `no_callback_aborts`, `reject_one_aborts`,
 `trust_flag_skips_verification`, `handler_sees_failures_in_order`, `failed_start_restores`,
 `failed_handshake_marks_connection`, `never_cleartext_after_failure_*`, `data_over_tls_only_if_secured`,
-`torn_down_stays_silent`, the configuration theorems `config_*`, `refused_domains`, the tie to the
+`torn_down_stays_silent`, the configuration theorems `config_*`, `refused_domains`,
+`flags_last_word_wins`, the tie to the
 connection machine `same_transition_as_conn_machine`, and the 7 x 4 x 3 x 2 decision table.
 ASSUMED: H-openssl — in particular that OpenSSL reports no failure exactly for chains that reach a
 configured trust anchor, are inside their validity periods and name the pinned host; X.509 path
@@ -114,6 +115,22 @@ theorem refused_domains :
   constructor
   · simp [connectRefused, pin_domain_check.1]
   · intro d; simp [connectRefused, pin_domain_check.2.1]
+
+/-- the trust flag is what the user said LAST: an accepted xmpp_conn_set_flags word replaces the
+    trust and disable bits whatever they were, a refused word (DISABLE_TLS together with
+    TRUST_TLS / LEGACY_SSL / MANDATORY_TLS) changes nothing -/
+theorem flags_last_word_wins (p : Policy) (w : Nat) :
+    ((setFlags p w).2 = true → (setFlags p w).1.trust = (w / 8 % 2 == 1) ∧
+      (setFlags p w).1.disabled = (w % 2 == 1) ∧ (setFlags p w).1.domain = p.domain) ∧
+    ((setFlags p w).2 = false → (setFlags p w).1.trust = p.trust ∧ (setFlags p w).1.disabled = p.disabled) ∧
+    ((setFlags p w).2 = false ↔ flagConflict w = true) := by
+  unfold setFlags
+  cases h : flagConflict w <;> simp
+
+/-- clearing the flag clears it: TRUST_TLS then 0 leaves no trust -/
+example : (setFlags (setFlags { domain := [] } 8).1 0).1.trust = false ∧
+    (setFlags { domain := [] } 8).1.trust = true ∧ (setFlags { domain := [], trust := true } 9).2 = false := by
+  decide
 
 /-! ### secured ⇔ handshake succeeded ∧ (no failure ∨ trust flag ∨ every failure accepted) -/
 
